@@ -27,7 +27,8 @@ def classify(callee):
     name = callee["name"]
     impl_self = callee.get("impl_self") or ""
     base = strip_generics(impl_self)
-    if base.startswith("std::sync::atomic::Atomic") or base.startswith("core::sync::atomic::Atomic"):
+    if (base.startswith("std::sync::atomic::Atomic") or base.startswith("core::sync::atomic::Atomic")) and not callee["local"]:
+        # (a crate-local extension trait implemented for an atomic type is ordinary code: analysed through its body)
         return ("ATOMIC", name)
     if base.startswith("dashmap::DashMap") or base == "dashmap::DashMap":
         return ("MAP", name)
